@@ -49,6 +49,8 @@ class World:
         self.objs = {}       # handle -> object whose providedBy is the node
         self.pending = []    # ops of the current step
         self.prev = {}       # id -> row reported last
+        self.prime = {}      # id S -> id T: the last isOrExtends question S was asked (answer: yes)
+        self.stepno = 0
         self.ensure(Interface)
         self.ensure(implementedBy(object))
 
@@ -108,11 +110,21 @@ class World:
                 if v is False:
                     return False
                 raise ValueError("non-bool answer")
+            # Repeat first the very question S answered "yes" to last (before the operation), then
+            # ask the others; the FIRST answer to each question is the one reported.  A stale memo of
+            # the last hit (or any cache keyed on the previous question) shows up as a wrong row.
+            first = {}
+            t0 = self.prime.get(i)
+            if t0 in self.nodes:
+                first[t0] = truth(s.isOrExtends(self.nodes[t0]))
+            for j in ids:
+                if j not in first:
+                    first[j] = truth(s.isOrExtends(self.nodes[j]))
             row = [i,
                    [self.ids[id(b)] for b in s.__bases__],
                    [self.ids[id(a)] for a in s.__sro__],
                    [self.ids[id(a)] for a in s.__iro__],
-                   [j for j in ids if truth(s.isOrExtends(self.nodes[j]))],
+                   [j for j in ids if first[j]],
                    [j for j in ids if truth(s.extends(self.nodes[j]))],
                    [j for j in ids if truth(s.extends(self.nodes[j], strict=False))],
                    None]
@@ -121,7 +133,44 @@ class World:
                 if providedBy(ob) is s:
                     row[7] = [j for j in ids if truth(self.nodes[j].providedBy(ob))]
             out.append(row)
+        # leave every specification with a successful question as its last one, a different one
+        # from step to step (providedBy above also asks isOrExtends questions)
+        self.stepno += 1
+        self.prime = {}
+        for row in out:
+            yes = row[4]
+            if yes:
+                t = yes[(self.stepno + row[0]) % len(yes)]
+                if self.nodes[row[0]].isOrExtends(self.nodes[t]) is True:
+                    self.prime[row[0]] = t
         return out
+
+    def prime_for_rebase(self, x, new_bases):
+        """just before X.__bases__ = new_bases: make the last question of X and of each of its
+        descendants one whose answer is about to turn from yes to no (if there is one)"""
+        g = {i: list(r[1]) for i, r in self.prev.items()}
+        if x not in g:
+            return
+        g2 = dict(g)
+        g2[x] = list(new_bases)
+
+        def reach(gr, s0):
+            seen, todo = set(), list(gr.get(s0, []))
+            while todo:
+                y = todo.pop()
+                if y not in seen:
+                    seen.add(y)
+                    todo.extend(gr.get(y, []))
+            return seen
+        for s0 in sorted(g):
+            if s0 != x and x not in reach(g, s0):
+                continue
+            after = reach(g2, s0) | {s0, 0}
+            lost = [t for t in self.prev[s0][4] if t not in after and t in self.nodes]
+            if lost and s0 in self.nodes:
+                t = lost[(self.stepno + s0) % len(lost)]
+                if self.nodes[s0].isOrExtends(self.nodes[t]) is True:
+                    self.prime[s0] = t
 
     def name(self, prefix):
         COUNTER[0] += 1
@@ -169,8 +218,9 @@ class World:
             self.pending.append(["set", node, [self.ensure(b) for b in spec.__bases__]])
         elif kind == "setbases":
             spec = self.h(op["node"])
-            spec.__bases__ = tuple(self.h(b) for b in op["bases"])
             node = self.ids[id(spec)]
+            self.prime_for_rebase(node, [self.ids[id(self.h(b))] for b in op["bases"]])
+            spec.__bases__ = tuple(self.h(b) for b in op["bases"])
             self.pending.append(["set", node, [self.ensure(b) for b in spec.__bases__]])
         elif kind == "drop":
             hd = op["node"]
